@@ -59,7 +59,8 @@ Fam(d) == IF d \in StrTypes THEN "str" ELSE IF d \in TupleTypes THEN "tuple" ELS
 Scalars == {"int", "int0", "negint", "float_i", "float_f", "true", "false", "str", "text", "s_int", "s_float",
             "s_bool", "s_date", "s_time", "s_datetime", "date", "time", "time_us", "datetime", "datetime_us",
             "tuple2", "tuple3", "bracketed", "dict",
-            "datetime_tz", "time_tz", "inf", "bigint", "s_int_ws", "s_float_exp", "tuple2e", "tuple3e"}
+            "datetime_tz", "time_tz", "inf", "bigint", "s_int_ws", "s_float_exp", "tuple2e", "tuple3e",
+            "s_date_early", "date_early", "s_datetime_early", "datetime_early"}      \* years below 1000 (four-digit text form)
 Empties == {"none", "empty", "elist", "edict"}
 Lists == {"list_int", "list_str", "list_mixed", "list_s_int", "list_tuple2", "list_tuple2p", "list_tuple23"}     \* ..2p: a component with brackets in it; ..23: a 2- and a 3-tuple
 \* another Property handed to extend ("one can also pass another Property ... units must match"): two int values,
@@ -70,9 +71,9 @@ AccYes(f) == CASE f = "str"      -> {"str", "text", "list_str", "prop_str"}
                [] f = "int"      -> {"int", "int0", "negint", "s_int", "list_int", "list_s_int", "bigint", "s_int_ws", "prop_int"}
                [] f = "float"    -> {"float_i", "float_f", "s_float", "inf", "s_float_exp"}
                [] f = "boolean"  -> {"true", "false", "s_bool"}
-               [] f = "date"     -> {"date", "s_date"}
+               [] f = "date"     -> {"date", "s_date", "date_early", "s_date_early"}
                [] f = "time"     -> {"time", "s_time", "time_tz"}
-               [] f = "datetime" -> {"datetime", "s_datetime", "datetime_tz"}
+               [] f = "datetime" -> {"datetime", "s_datetime", "datetime_tz", "datetime_early", "s_datetime_early"}
                [] f = "tuple"    -> {}
                [] OTHER -> {}
 AccNo(f) == IF f \in {"str", "none"} THEN {} ELSE {"str", "text", "list_str", "list_mixed", "prop_str"} \cup (IF f = "tuple" THEN {"list_tuple23"} ELSE {})
@@ -82,9 +83,9 @@ Infer(c) == CASE c \in {"int", "int0", "negint", "list_int", "list_mixed", "bigi
               [] c \in {"float_i", "float_f", "inf"} -> "float"
               [] c \in {"true", "false"} -> "boolean"
               [] c = "text" -> "text"
-              [] c = "date" -> "date"
+              [] c \in {"date", "date_early"} -> "date"
               [] c \in {"time", "time_us", "time_tz"} -> "time"
-              [] c \in {"datetime", "datetime_us", "datetime_tz"} -> "datetime"
+              [] c \in {"datetime", "datetime_us", "datetime_tz", "datetime_early"} -> "datetime"
               [] OTHER -> "string"
 \* "input that cannot be converted is refused": an accepted list of k values adds k values - none is dropped silently
 \* (judged for lists given to a Property that already holds values; what an empty Property does with a list is the
